@@ -120,6 +120,27 @@ def main(ctx: Ctx):
                      sample=dict(landing.describe(rec), items=n) if rec['k'] is not None and rec['k'] % 29 == 0 else None)
             ctx.count(f'{kind}:{rec["mode"]}:items={n}')
             landing.judge(ctx, rec, lambda c, r_, e=exp_n: evaluate(c, r_, e), items=n)
+    # ---- a target that raises: the run loop's own handlers and clean-up are executed, and a stop can land inside them
+    per_u = None if T else {'thread': 10 ** 6, 'process': 6, 'remote': 4}
+    cases_u, _ = landing.plan(ctx, meta, progs, ['u'], ['raise', 'terminate', 'kill'], items=2, per_prog=per_u)
+    fin_lines = {p_: cleanup_lines(p_) for p_ in progs}
+
+    def evaluate_u(c, rec):
+        # a consumer is blocked in results_iter() before the stop: the stream has to end for it too
+        evaluate(c, rec, [])
+        r = rec['real']
+        kind = inject.KINDS[rec['prog']][2]
+        if r.get('ctor') == 'ok' and r.get('consumer_blocked'):
+            line = landing.landing_line(rec)
+            where = 'cleanup-landing' if line in fin_lines[rec['prog']] else 'landing'
+            c.fail(f'blocked-consumer:{kind}:{where}', f'{rec["prog"]}, target raises: {rec["mode"]} landing at line {line} with a consumer blocked in results_iter(): the consumer is still blocked after the worker is dead',
+                   dict(landing.describe(rec), scenario='raising-target-landing'))
+    for rec in landing.run_cases(ctx, cases_u, items=2, consumer=True):
+        kind = inject.KINDS[rec['prog']][2]
+        ctx.case((rec['prog'], rec['k'], rec['mode'], 'u'), rec['k'] is not None,
+                 sample=dict(landing.describe(rec), target='raises', consumer_blocked=rec['real'].get('consumer_blocked')) if rec['k'] is not None and rec['k'] % 23 == 0 else None)
+        ctx.count(f'{kind}:{rec["mode"]}:target-raises')
+        landing.judge(ctx, rec, evaluate_u, items=2, consumer=True)
     forward_correspondence(ctx)
     sess = inject.Session()
     try:
